@@ -114,6 +114,11 @@ def call(wv, op, args, rng=None):
         getattr(wv, op)(*args)
         return
     mand, opt = callform.DOC["Weaver." + op]
+    if op == "truncate_by_value" and rng.integers(0, 4) == 0:
+        # bounds computed with NumPy: 0-d / 1-element arrays - mutable objects that the object applies twice (to the
+        # working series and to the reference) and must therefore leave alone
+        wrap = (lambda v: np.asarray(float(v))) if rng.integers(0, 2) else (lambda v: np.array([float(v)]))
+        args = [wrap(args[0]), wrap(args[1])] + list(args[2:])
     kw = {k: v for (k, _d), v in zip(opt, args[len(mand):])}
     callform.call(rng, getattr(wv, op), "Weaver." + op, list(args[:len(mand)]), kw, p_pos=0.4, p_kw=0.2)
 
